@@ -432,16 +432,18 @@ class Model:
         # an interrupt racing, within one time step, with the completion of a wait that had begun before
         for name, ps in self.pushes.items():
             for (t, sq) in ps:
-                if any(ct == t and started <= sq for (ct, started) in self.completions.get(name, ())):
+                if any(ct == t and started <= sq and done_at >= getattr(self, 'push_ticks', {}).get((name, t, sq), 0)
+                       for (ct, started, done_at) in self.completions.get(name, ())):
                     raise Ambiguous('%s: interrupt and completion of an earlier wait in one time step' % name)
 
     def dispatch(self, action):
+        self.tick = getattr(self, 'tick', 0) + 1        # order in which the model handles things
         kind = action[0]
         if kind == 'start':
             self.advance(action[1], first=True)
         elif kind == 'resume':
             _, p, token, state, idx, started = action
-            self.completions.setdefault(p.name, []).append((self.now, started))
+            self.completions.setdefault(p.name, []).append((self.now, started, self.tick))
             if not p.alive or p.token != token:
                 if self.last_interrupt.get(p.name) == self.now and p.alive:
                     raise Ambiguous('%s: interrupt and awaited event in the same time step' % p.name)
@@ -670,6 +672,11 @@ class Model:
             if tgt.alive:
                 tgt.interrupts.append(cause)
                 self.pushes.setdefault(tgt.name, []).append((self.now, self.seq))
+                if not hasattr(self, 'push_ticks'):
+                    self.push_ticks = {}
+                # (issued by a callback, after the process that triggered the event has yielded again: a wait of the
+                #  target that completed before this moment does not race with the interrupt)
+                self.push_ticks[(tgt.name, self.now, self.seq)] = self.tick
                 self.push(self.now, ('interrupt', tgt))
         if ev.defuser:
             ev.handled = True      # the callbacks run first, then the failure is looked at
